@@ -127,8 +127,14 @@ def history_case(chk, rng, hi):
                                     ["i", um]]])
                 writes.append((c, um, ta, as_code))
             key = "u%d" % i
-            steps.append({"k": key, "e": M(V("mc"), "update", vexpr,
-                                           ["l", specs])})
+            # the specs as a list, a tuple, or a one-shot iterator
+            cont = rng.choice(["list", "list", "tuple", "iterator"])
+            sexpr = {"list": ["l", specs], "tuple": ["t", specs],
+                     "iterator": ["c", ["g", "builtins:iter"],
+                                  [["l", specs]]]}[cont]
+            if not mixing:
+                tags.add("rate specs given as " + cont)
+            steps.append({"k": key, "e": M(V("mc"), "update", vexpr, sexpr)})
             if mixing:
                 checks.append((key, "reject", None))
                 tags.add("kind-mixing rejections")
